@@ -319,8 +319,9 @@ def check_fixups(ctx, tpls):
                       f'not start at line 1 of the fragment', c.lineno)
         for col in cols:
             if col != 0:
-                txt = norm(ast.unparse(fi.node), 100000)
-                ok = 'col_offset' in txt
+                ok = any(isinstance(x, ast.Attribute) and x.attr in ('col_offset', 'end_col_offset') and isinstance(x.ctx, ast.Store)
+                         for x in ast.walk(fi.node)) or \
+                    any(isinstance(x, ast.keyword) and x.arg in ('col_offset', 'end_col_offset') for x in ast.walk(fi.node))
                 ctx.check('R5.2', ok, fi.module, fi.qualname, f'{{src}} at column {col}',
                           f'the template places {{src}} at column {col} but the function never compensates columns', fi.lineno)
         if not offs and not locs:
@@ -436,10 +437,39 @@ def check_construction(ctx):
     ctx.rule('R5.4', 'FST.fromsrc: the text handed to the parser and the lines handed to the root both derive from the same `src` by '
                      'split / join on newlines only; FST.__new__ stores lines as bistr unchanged', 2)
     fs = ctx.repo.funcs('fst', 'FST.fromsrc')[0]
-    txt = norm(ast.unparse(fs.node), 100000)
-    ok = ("lines = src.split('\\n')" in txt or 'src.split(' in txt) and "'\\n'.join(" in txt and 'parsex.parse(src' in txt
-    ctx.check('R5.4', ok, 'fst', 'FST.fromsrc', 'src -> split / join -> parse(src) + root lines',
-              'fromsrc must pass the identical text to the parser and to the tree (no normalisation in between)', fs.lineno)
+    fn = fs.node
+    # structural: parse(<S>, ...) and FST(<ast>, <L>, ...) where on every binding <L> == <S>.split('\n') or <S> == '\n'.join(<L>)
+    parse_calls = [c for c in walk_no_nested(fn) if isinstance(c, ast.Call) and call_name(c) == 'parse' and c.args and isinstance(c.args[0], ast.Name)]
+    ctor = [c for c in walk_no_nested(fn) if isinstance(c, ast.Call) and call_name(c) in ('FST', 'cls') and len(c.args) >= 2 and isinstance(c.args[1], ast.Name)]
+    ok = len(parse_calls) == 1 and len(ctor) >= 1
+    why = 'parser call / root construction not found'
+    if ok:
+        S, L = parse_calls[0].args[0].id, ctor[-1].args[1].id
+        asg = {}
+        for n in walk_no_nested(fn):
+            if isinstance(n, ast.Assign) and isinstance(n.targets[0], ast.Name):
+                asg.setdefault(n.targets[0].id, []).append(n.value)
+
+        def is_split(v, of):
+            return isinstance(v, ast.Call) and isinstance(v.func, ast.Attribute) and v.func.attr == 'split' and norm(v.func.value) == of and \
+                len(v.args) == 1 and isinstance(v.args[0], ast.Constant) and v.args[0].value == '\n'
+
+        def is_join(v, of):
+            return isinstance(v, ast.Call) and isinstance(v.func, ast.Attribute) and v.func.attr == 'join' and isinstance(v.func.value, ast.Constant) and \
+                v.func.value.value == '\n' and len(v.args) == 1 and norm(v.args[0]) == of
+
+        params = fs.params()
+        for v in asg.get(L, []):
+            if not (is_split(v, S) or (isinstance(v, ast.Name) and v.id in params and any(is_join(j, L) or is_join(j, v.id) for j in asg.get(S, [])))):
+                ok, why = False, f'lines `{L}` bound to {norm(v, 50)}: neither `{S}.split("\\n")` nor the caller\'s own line list joined into `{S}`'
+        for v in asg.get(S, []):
+            if not is_join(v, L):
+                ok, why = False, f'text `{S}` rebound to {norm(v, 50)}: the parser would see other text than the tree keeps'
+        if not asg.get(L):
+            ok, why = False, f'lines `{L}` never derived from the source text'
+    ctx.check('R5.4', ok, 'fst', 'FST.fromsrc', 'parse(S) and root lines L with L == S.split / S == join(L)',
+              f'fromsrc must pass the identical text to the parser and to the tree ({why})', fs.lineno)
     nw = ctx.repo.funcs('fst', 'FST.__new__')[0]
-    txt = norm(ast.unparse(nw.node), 200000)
-    ctx.check('R5.4', 'bistr(' in txt, 'fst', 'FST.__new__', 'lines stored as bistr', 'root lines must be bistr (byte-indexable)', nw.lineno)
+    stores = [n for n in walk_no_nested(nw.node) if isinstance(n, ast.Assign) and norm(n.targets[0]) == 'self._lines']
+    okb = bool(stores) and all(any(isinstance(x, ast.Call) and call_name(x) == 'bistr' for x in ast.walk(n.value)) for n in stores)
+    ctx.check('R5.4', okb, 'fst', 'FST.__new__', 'lines stored as bistr', 'root lines must be stored as bistr (byte-indexable) of the given lines', nw.lineno)
